@@ -128,7 +128,7 @@ pub fn property() -> Property {
     Property {
         id: "C01",
         level: "exploration",
-        rule: "cases are (input bytes, walker arguments): inputs come from three modes - structured rich files (every section kind wired by sh_link/sh_info, segments, random layout) with 0..3 header-field overrides from the boundary table {0,1,..,2^31,2^32-1,2^63,2^64-1,file_len-1,file_len,file_len+1,own value+-1} and byte/word corruption of section bodies; linker-produced sample objects with 0..4 field overrides located by an independent reader, byte flips, word edits, splices, truncations; raw bytes with an optional valid ident/header prefix. The allocation-free walker then calls every public entry point of the no_std core (open under all specs, every ElfBytes accessor on the file's own and on fabricated headers, every lazy table at indices {0,1,len-1,len,len+1,usize::MAX/entsize..,usize::MAX}, string tables, notes, both hash lookups, symbol-version queries, and all stand-alone parsers/constructors on arbitrary sub-slices with offsets up to usize::MAX, alignments 0..2^64-1, counts up to u64::MAX; parse_ident on every buffer length 0..20) with overflow checks and debug assertions on. Oracle: no panic. Non-trivial: the input opened, or a stand-alone parser got past input validation; distinct by (input, args) hash. ident: exhaustive over buffer lengths 0..20 x 6 content variants.",
+        rule: "cases are (input bytes, walker arguments): inputs come from three modes - structured rich files (every section kind wired by sh_link/sh_info, segments, random layout) with 0..3 header-field overrides from the boundary table {0,1,..,2^31,2^32-1,2^63,2^64-1,file_len-1,file_len,file_len+1,own value+-1} and byte/word corruption of section bodies; linker-produced sample objects with 0..4 field overrides located by an independent reader, byte flips, word edits, splices, truncations; raw bytes with an optional valid ident/header prefix. The allocation-free walker then calls every public entry point of the no_std core (open under all specs, every ElfBytes accessor on the file's own and on fabricated headers, every lazy table at indices {0,1,len-1,len,len+1,usize::MAX/entsize..,usize::MAX}, string tables, notes, both hash lookups, symbol-version queries, and all stand-alone parsers/constructors on arbitrary sub-slices with offsets up to usize::MAX, alignments 0..2^64-1, counts up to u64::MAX; parse_ident on every buffer length 0..20; the provided Iterator methods size_hint/nth/skip/step_by/count/last on every iterator type, also after exhaustion; Debug of every public type; hash lookups with names that saturate the running hash; a GnuHashTable whose public `hdr` field the caller has overwritten) with overflow checks and debug assertions on. Oracle: no panic. Non-trivial: the input opened, or a stand-alone parser got past input validation; distinct by (input, args) hash. ident: exhaustive over buffer lengths 0..20 x 6 content variants.",
         assumptions: &["64-bit host (usize = 64 bits)", "aborts (stack overflow, OOM) would kill the checker and surface as exit 2, not as a pass"],
         subs: vec![Sub::enumerated("ident", oracle_ident, enum_ident, true), Sub::new("total", oracle_total, 3000, 250_000, 8_000_000).shrink(3000), Sub::new("total_raw", oracle_total_raw, 600, 20_000, 200_000).shrink(3000)],
         extras: vec![crate::fuzz::c01_campaign],
